@@ -32,8 +32,9 @@ CHECKS = {
         level_text="After every OnSample (run under recover) of AIMD/Vegas/Gradient/Gradient2, bare and wrapped by windowed/traced limits, the "
                    "reported estimate is checked against [max(1,min), max(max,initial)] (AIMD: max(initial, max in-flight seen + increment)); "
                    "int(NaN) shows up as MinInt64 and trips the same bound. Hostile inputs: rtt 0/1/baseline/up to 2^62, in-flight 0..2^31-1, "
-                   "drop-only phases. Exploration over seeded sequences, not a proof for all inputs.",
-        require=["samples", "estimate_changes", "cases_with_rtt_zero", "cases_with_drop_only_phase"],
+                   "drop-only phases; one case in twelve asks for the default minimum (0) together with a queue allowance that is 0 for small limits "
+                   "(fixed 0 or limit/10). Exploration over seeded sequences, not a proof for all inputs.",
+        require=["samples", "estimate_changes", "cases_with_rtt_zero", "cases_with_drop_only_phase", "cases_default_minimum_and_zero_queue_allowance"],
         rule="PRNG valid configuration (min<=initial incl. initial>max, smoothing/backoff in (0,1], queue allowance<=max) x wrapper "
              "(bare, windowed, traced, traced+windowed) x 50-400 samples from hostile/benign phases; non-trivial = the reported estimate changed at "
              "least once; distinct = distinct (config, wrapper, length, first sample).",
@@ -45,8 +46,10 @@ CHECKS = {
         level_text="From PRNG-generated reachable states (config + random prior history) every drop sample is checked for non-increase of the "
                    "reported estimate, AIMD additionally for the exact rule max(1,min(limit-1,floor(limit*ratio))) (exact rational and float floor "
                    "both accepted); sustained drop runs with unique increasing RTTs (so probes are observable) must reach the floor within an "
-                   "analytic bound of effective samples; cap without enough effective samples is inconclusive. Exploration.",
-        require=["single_drop_samples", "single_drop_lowered", "aimd_exact_rule_checks", "sustained_drop_samples",
+                   "analytic bound of effective samples; cap without enough effective samples is inconclusive. Concurrent: N drops delivered to one AIMD limit at once must "
+                   "compose exactly; 2-8 goroutines deliver only drops to one Vegas / Gradient limit (large limits, the user-supplied queue function yields "
+                   "or sleeps 20us) and the values reported to a change listener never rise. Exploration.",
+        require=["concurrent_drop_rounds/vegas", "concurrent_drop_rounds/gradient", "single_drop_samples", "single_drop_lowered", "aimd_exact_rule_checks", "sustained_drop_samples",
                  "floor_reached/aimd", "floor_reached/vegas", "floor_reached/gradient", "probe_or_baseline_samples_observed", "concurrent_drop_rounds"],
         rule="case = (algorithm in AIMD/Vegas/Gradient, valid config, random prefix of 0-150 benign/hostile samples) then either 1-4 hostile drop "
              "samples or a sustained drop run; non-trivial = some drop lowered the estimate / the run started above the floor; distinct = "
@@ -85,8 +88,10 @@ CHECKS = {
         level_text="Every sample has a unique RTT (level steps up and down), so RTTNoLoad() after each sample names its source sample. The monitor "
                    "checks: unset or <= current RTT; equals an observed RTT that is the minimum since its own sample; the implied reset point never "
                    "moves backwards; age of the source < multiplier*(max estimate+1)+1 (Vegas) / < 2*interval (Gradient); resets neither overdue nor "
-                   "earlier than the documented jitter range allows. Jitter is reproducible through math/rand.Seed. Exploration.",
-        require=["samples", "baseline_resets_observed", "baseline_raises_observed", "baseline_lowerings_observed", "cases/vegas", "cases/gradient"],
+                   "earlier than the documented jitter range allows. Jitter is reproducible through math/rand.Seed. One Vegas case in four is built by "
+                   "NewDefaultVegasLimit / NewDefaultVegasLimitWithLimit / the full constructor with probeMultiplier -1 or 0 (documented default 30), half of "
+                   "those with the limit pinned by app-limited samples. Exploration.",
+        require=["cases_with_default_probe_multiplier/NewDefaultVegasLimit", "cases_with_default_probe_multiplier/WithRegistry(probeMultiplier=-1)", "samples", "baseline_resets_observed", "baseline_raises_observed", "baseline_lowerings_observed", "cases/vegas", "cases/gradient"],
         rule="case = (Vegas with max<=40 and multiplier in {1..30} or Gradient with interval in {3,10,50,200,disabled}, math/rand seed, 1500-4000 "
              "samples with unique RTTs whose level steps up/down); non-trivial = at least one reset and one lowering of the baseline observed; "
              "distinct = distinct (config, seed, length, middle RTT).",
@@ -112,14 +117,15 @@ CHECKS = {
         technique="lock-step reference-model monitor over seeded op sequences + porcupine linearizability check of recorded concurrent histories + quiescence invariant",
         level_text="Sequential: after every acquire/release/SetLimit/add/remove step on both partitioned strategies the grant decision (the iff of the "
                    "statement), total busy/limit, every bin count and every bin share are compared with an integer-arithmetic reference model "
-                   "(dyadic and decimal fractions, zero fractions, unknown/unmatched/empty keys, overlapping predicates, limits set to <=0). "
+                   "(dyadic and decimal fractions, zero fractions, unknown/unmatched/empty keys, overlapping predicates, limits set to <=0; lookup partition objects named differently from the key they are registered under, re-adding a registered key "
+                   "must be refused). "
                    "Concurrent: 2-6 goroutines on one strategy, client-boundary histories on a logical clock checked with porcupine against the "
                    "same model, bins must be zero at quiescence. Storms: 2-5 concurrent SetLimit callers, and AddPartition racing with a "
                    "limit change (barrier-released, 120 rounds): at quiescence every bin share must be the share of the limit in force. "
                    "Exploration over the sequences and interleavings produced.",
         require=["acquires", "releases", "setlimits", "partition_adds", "partition_removes", "grants_on_guaranteed_share_while_total_full",
                  "grants_borrowing_beyond_share", "requests_for_unknown_or_unmatched_keys", "concurrent_histories", "histories_linearizable",
-                 "overlapping_operation_pairs", "sequential_cases/lookup", "sequential_cases/predicate", "storm_quiescent_share_checks", "storm_add_vs_setlimit_rounds"],
+                 "overlapping_operation_pairs", "sequential_cases/lookup", "sequential_cases/predicate", "storm_quiescent_share_checks", "storm_add_vs_setlimit_rounds", "partition_duplicate_adds_refused"],
         rule="sequential case = (strategy kind, 1-5 partitions with fractions k/32 or k/100 summing <=1, total limit 1-50, 20-120 ops); concurrent case = "
              "(config, 2-6 goroutines x 3-8 pre-drawn ops, small limit); limits whose share would depend on binary rounding of limit*fraction are "
              "avoided, not judged. non-trivial = both grants and refusals occurred (sequential) / at least one overlapping operation pair (concurrent); "
@@ -133,7 +139,8 @@ CHECKS = {
                    "operation (unary / receive / send), before the wrapped call; wrapped call invoked iff granted; exactly one completion whose "
                    "outcome equals the consulted classifier's result (success for an error-free stream op; default classifiers when none configured); "
                    "result and error returned by identity; on refusal nothing else touched and the status code equals the limit-exceeded "
-                   "classifier's. All option combinations incl. defaults, random RecvMsg/SendMsg sequences, plus a shared interceptor over a real "
+                   "classifier's (any of the 16 non-OK codes); every classifier, handler and invoker must be handed the call's own request / reply / info / "
+                   "error / limiter objects (identity). All option combinations incl. defaults, random RecvMsg/SendMsg sequences, plus a shared interceptor over a real "
                    "DefaultLimiter whose in-flight must return to 0. Exploration over seeded inputs.",
         require=["unary_calls", "stream_ops", "granted_calls_checked", "refused_calls_checked", "send_ops_on_recording_send_limiter",
                  "recv_ops_on_recording_recv_limiter", "shared_interceptor_calls", "calls_with_a_dead_context"],
@@ -149,12 +156,15 @@ CHECKS = {
         level_text="With a recording registry every admission decision of Simple/Precise/Lookup/Predicate strategies must emit exactly the in-flight "
                    "(bin) count at the decision, gauges must equal the enforced limit/shares after every step, every OnSample of every limit kind must "
                    "emit rtt and in-flight once and the drop counter iff dropped under the prefixed names. The bundled registries are checked through the "
-                   "go-metrics registry contents and the captured dogstatsd wire lines (kind suffix, prefixed name, value). Life cycle: seeded "
+                   "go-metrics registry contents and the captured dogstatsd wire lines (kind suffix, prefixed name, value), the address-based datadog "
+                   "constructor through a loop-back UDP socket playing the agent (default prefix), and polled gauges of a started registry: suppliers that "
+                   "report (v, true), never a value (ok=false) or a value only for their first polls - the backend must hold the reported values and nothing for the "
+                   "supplier without values. Life cycle: seeded "
                    "Start/Stop/RegisterGauge sequences (sequential and concurrent) with a census of live poller goroutines (1 iff started, never 2, 0 "
                    "after Stop returns), frozen supplier counts while stopped, and a watchdog that classifies a hang as the Stop-vs-tick wait-for cycle "
                    "from the goroutine dump. Exploration.",
         require=["strategy_decisions", "partition_decisions", "limit_samples", "limit_drop_samples", "gauge_reads", "forwarded_samples_checked",
-                 "lifecycle_states_checked", "frozen_poll_count_checks", "live_poll_observations", "lifecycle_cases/gometrics",
+                 "polled_gauge_checks", "forwarded_samples_checked_via_udp", "lifecycle_states_checked", "frozen_poll_count_checks", "live_poll_observations", "lifecycle_cases/gometrics",
                  "lifecycle_cases/datadog", "concurrent_lifecycle_cases", "concurrent_strategy_sample_rounds"],
         rule="case kinds: strategy op sequence (30-80 ops), partitioned strategy op sequence, limit sample sequence (30-90 samples, every limit kind incl. "
              "windowed), queue gauge configuration, registry forwarding (6 metrics of random kind/prefix/id), life-cycle sequence (2-8 ops) and concurrent "
@@ -188,13 +198,14 @@ CHECKS = {
                    "has not moved, 'capacity free and a caller still blocked' is a violation. The release is injected at: before arrival, after the "
                    "caller's 1st/2nd failed delegate attempt, between backlog push and select (verif hooks), when asleep, at the failed retry of a woken "
                    "loser, while unblock hands to a waiter that is being cancelled / timing out at the same instant, and with the broadcast delayed after "
-                   "the inner release - for blocking (timeout 0 / T), deadline and queue FIFO/LIFO x eviction on/off, capacity 1-2, 1-3 waiters, all "
+                   "the inner release, and with every holder completing at the same moment from its own goroutine over a slow (yielding) delegate - at every snapshot "
+                   "a slot that is counted busy although nobody holds it while callers are blocked is a violation too - for blocking (timeout 0 / T), deadline and queue FIFO/LIFO x eviction on/off, capacity 1-2, 1-3 waiters, all "
                    "outcomes. One case in fifty is a real-time stress run (4-16 goroutines, zero hold, timeout 0 / 1h, 200 iterations each) whose "
                    "stuck state (no progress for two watchdog periods, capacity free, workers inside Acquire) is a violation. Exploration of forced interleavings, not all schedules.",
         require=["scenarios", "quiescent_snapshots", "scenarios_reaching_their_schedule_point", "snapshots_with_blocked_callers",
                  "reached/after-failed-attempt-1", "reached/queue.after_push", "reached/queue.before_push", "reached/loser-retry",
-                 "reached/handoff-vs-cancel", "reached/handoff-vs-timeout", "reached/next-in-line-cancelled-but-not-evicted", "reached/asleep", "stress_runs", "stress_grants"],
-        rule="scenario grid = limiter kind (7) x release point (6-10) x capacity {1,2} x waiters {1,2,3} x outcome (3); quick runs the grid 3 times, thorough 1500 "
+                 "reached/handoff-vs-cancel", "reached/handoff-vs-timeout", "reached/next-in-line-cancelled-but-not-evicted", "reached/asleep", "reached/parallel-releases", "stress_runs", "stress_grants"],
+        rule="scenario grid = limiter kind (7) x release point (7-11) x capacity {1,2} x waiters {1,2,3} x outcome (3); quick runs the grid 3 times, thorough 1500 "
              "times with PRNG pause budgets / strategy kind / targeted waiter; non-trivial = schedule point reached and some waiter granted; distinct = distinct scenario tuples.",
         assumptions=COMMON_ASSUME + ["sync.Cond.Wait, channel ops and select are durably blocking in a bubble, sync.Mutex is not (a caller waiting for a mutex counts as running)",
                                      "pauses at schedule points are bounded yields, never waits: they cannot deadlock an implementation that holds a lock across the window"],
@@ -205,12 +216,14 @@ CHECKS = {
         level_text="Capacity 1 is held; waiters arrive one at a time with synctest.Wait() between arrivals (arrival order is a fact); PRNG interleaves "
                    "arrivals, cancellations (eviction on), staggered time-outs, releases and releases whose hand-off attempt the (injected) delegate "
                    "refuses; after each release exactly one waiter must be granted and it "
-                   "must be the oldest (FIFO) / newest (LIFO) still waiting. Every constructor: FromConfig{fifo,lifo,default}, WithDefaults, the "
+                   "must be the oldest (FIFO) / newest (LIFO) still waiting. Releases that coincide with a departure - the holder completes in the same breath as a "
+                   "caller is cancelled (eviction on), or at the very virtual instant the oldest caller's backlog time-out fires - must still grant exactly one caller: "
+                   "the next in order counting the departing caller or the next among those who stay. Every constructor: FromConfig{fifo,lifo,default}, WithDefaults, the "
                    "deprecated Fifo/Lifo constructors (+WithDefaults), FixedPool and Pool with OrderingFIFO/LIFO (also with backlog sizes 0 / -1 = default). Exploration over seeded scenarios.",
-        require=["grants_checked", "grants_with_a_choice", "releases_with_refused_handoff", "scenarios/fifo", "scenarios/lifo", "constructor/WithDefaults",
+        require=["releases_coinciding_with_a_departure", "grants_checked", "grants_with_a_choice", "releases_with_refused_handoff", "scenarios/fifo", "scenarios/lifo", "constructor/WithDefaults",
                  "constructor/NewLifoBlockingLimiterWithDefaults", "constructor/FixedPool{OrderingLIFO}", "constructor/Pool{OrderingFIFO}"],
         rule="scenario = (constructor (20), 6-20 ops: arrival / cancel / time-out of the oldest / release); non-trivial = at least two grants; distinct = distinct (constructor, trace).",
-        assumptions=COMMON_ASSUME + ["time-outs and releases are never placed at the same virtual instant here (that race is C10/C13 territory)"],
+        assumptions=COMMON_ASSUME + ["a caller whose time-out or cancellation coincides with a release may legitimately still be granted (it was queued when the hand-off happened)"],
     ),
     "C13": dict(
         pkg="c13", race=False, shards=(4, 16), timeout_s=(600, 3000),
@@ -221,11 +234,13 @@ CHECKS = {
                    "bound, arrivals before / at / after the deadline; calls for which no bound applies must still be blocked; already-cancelled "
                    "contexts and passed deadlines are refused immediately even with capacity free and leave the busy count unchanged. Virtual time is "
                    "exact, so equality (now == deadline) is exercised. Contexts end by explicit cancel or by their own deadline. A two-waiter "
-                   "variant (one release before every bound, the winner keeps the token) requires the loser to be refused at exactly its own bound. "
+                   "variant (one release before every bound, the winner keeps the token) requires the loser to be refused at exactly its own bound. Queue limiters with "
+                   "the backlog time-out disabled (negative) are bounded by the context only (eviction on) or not at all; deadline limiters with an 'effectively never' "
+                   "deadline (beyond 2262, e.g. now+MaxInt64ns, 9999-12-31) must grant free capacity and keep a call blocked until its context ends or capacity is offered. "
                    "Exploration over a grid x PRNG durations.",
         require=["scenarios", "exact_return_instants_checked", "refused_calls_hold_nothing_checks", "calls_correctly_still_blocked",
-                 "calls_exactly_at_the_deadline", "family/queue", "family/deadline", "family/blocking", "contexts_ending_by_their_own_deadline", "two_waiter_scenarios", "slow_delegate_scenarios"],
-        rule="grid = limiter kind (7) x cancel placement (6) x arrival placement (3, deadline only) x capacity exhausted/free, each with PRNG timeout "
+                 "calls_exactly_at_the_deadline", "family/queue", "family/deadline", "family/blocking", "contexts_ending_by_their_own_deadline", "two_waiter_scenarios", "slow_delegate_scenarios", "far_deadline_scenarios"],
+        rule="grid = limiter kind (9) x cancel placement (6) x arrival placement (3, deadline only) x capacity exhausted/free, each with PRNG timeout "
              "(1ms-1h), arrival and cancel instants; quick 20 per cell, thorough 5000; all cases non-trivial; distinct = distinct (cell, instants).",
         assumptions=COMMON_ASSUME + ["a release at exactly the bound is not judged here (either verdict is legal; conservation is C02)"],
     ),
@@ -249,7 +264,8 @@ CHECKS = {
                    "simultaneous) and hold times (also zero), a quarter of the callers cancelling their context while possibly queued, time-out above the "
                    "longest possible wait (random pools: poll period 0 / 7 ms / long): a harness bracket counter (a lower bound of the true "
                    "holders) must never exceed the limit, every caller that did not cancel must be granted (queue pools: within the time-out of its arrival, exact "
-                   "virtual time), and once every holder has released nobody may still be inside Acquire. "
+                   "virtual time), and once every holder has released nobody may still be inside Acquire. Half of the generic pools hand their strategy a placeholder "
+                   "number different from the limit (the limiter's limit governs). "
                    "A real-time stress tier (zero hold, 300 iterations per caller, time-out 1h) must finish without refusals; a run that stops progressing "
                    "with capacity free is classified as stuck (violation), anything else as inconclusive. Exploration.",
         require=["virtual_scenarios", "virtual_callers_that_had_to_wait", "virtual_scenarios_reaching_the_limit", "virtual_callers_cancelling_while_queued", "virtual_scenarios_with_colliding_timeouts", "stress_runs", "stress_grants"],
@@ -311,7 +327,8 @@ CHECKS = {
         technique="Go race detector (-race, halt_on_error=0, log to file) over API-level stress of every exported method; reports filtered to library frames and de-duplicated by access-site pair; runtime fatals (concurrent map access) caught from the child's output",
         level_text="One stress scenario per type family (8 limits incl. wrappers, 4 strategies with their partitions and dynamic add/remove, default / "
                    "blocking / deadline / queue limiters and their listeners, pools, 7 measurement primitives, both metric registries with 200us polling, "
-                   "and an integrated limiter+limit+registry): 4-16 goroutines call every exported method (accessors, String, SetLimit, NotifyOnChange, "
+                   "independent Gradient / Gradient2 / Vegas instances side by side with limits on both sides of the pre-computed tables, strategies rebuilt "
+                   "from partitions other goroutines are reading, and an integrated limiter+limit+registry): 4-16 goroutines call every exported method (accessors, String, SetLimit, NotifyOnChange, "
                    "Register*, Start/Stop, ...) of one shared instance in PRNG mixes under the race detector; each scenario is repeated (quick 10x, "
                    "thorough 2000x) because races are schedule dependent; verif yield points are on in half of the runs. A report counts only if a frame "
                    "lies in the library; each distinct pair of innermost library functions is one violation signature. Exploration: it shows absence of "
